@@ -276,23 +276,32 @@ Definition answer (st : state) (r : request) : response + N :=
   | ListServices _ => inl (ListServicesResponse (list_services st))
   end.
 
+(* ServerReflectionResponse { valid_host: req.host.clone(), original_request: Some(req.clone()),
+   message_response: Some(resp_msg) }.  A request is (host, message_request). *)
+Record reply : Type := mkReply {
+  valid_host : name;
+  original_request : option (name * request);
+  message_response : response
+}.
+
 (* What the spawned task sees, in its own order: a request, an error item of the request stream,
    or the moment the response receiver is gone (after which [send(..).expect("send")] panics). *)
-Inductive event : Type := Req (r : request) | ReqErr | RxDrop.
+Inductive event : Type := Req (host : name) (r : request) | ReqErr | RxDrop.
 Inductive ending : Type := Ended | Panic.
 
 (* v1.rs: server_reflection_info, the spawned loop.  [closed] = receiver dropped. *)
 Fixpoint serve_v1 (st : state) (closed : bool) (evs : list event)
-  : list (response + N) * ending :=
+  : list (reply + N) * ending :=
   match evs with
   | [] => ([], Ended)                                    (* request stream ended *)
   | RxDrop :: r => serve_v1 st true r
   | ReqErr :: _ => ([], Ended)                           (* let Ok(req) = req else return *)
-  | Req q :: r =>
+  | Req h q :: r =>
       match answer st q with
       | inl m =>
-          if closed then ([], Panic)                     (* send(Ok(..)).expect("send") *)
-          else let '(out, e) := serve_v1 st closed r in (inl m :: out, e)
+          let resp := mkReply h (Some (h, q)) m in
+          if closed then ([], Panic)                     (* send(Ok(resp)).expect("send") *)
+          else let '(out, e) := serve_v1 st closed r in (inl resp :: out, e)
       | inr code =>
           if closed then ([], Panic)                     (* send(Err(..)).expect("send") *)
           else ([inr code], Ended)                       (* return *)
@@ -301,16 +310,17 @@ Fixpoint serve_v1 (st : state) (closed : bool) (evs : list event)
 
 (* v1alpha.rs: the same text over the v1alpha message types *)
 Fixpoint serve_v1alpha (st : state) (closed : bool) (evs : list event)
-  : list (response + N) * ending :=
+  : list (reply + N) * ending :=
   match evs with
   | [] => ([], Ended)
   | RxDrop :: r => serve_v1alpha st true r
   | ReqErr :: _ => ([], Ended)
-  | Req q :: r =>
+  | Req h q :: r =>
       match answer st q with
       | inl m =>
+          let resp := mkReply h (Some (h, q)) m in
           if closed then ([], Panic)
-          else let '(out, e) := serve_v1alpha st closed r in (inl m :: out, e)
+          else let '(out, e) := serve_v1alpha st closed r in (inl resp :: out, e)
       | inr code =>
           if closed then ([], Panic)
           else ([inr code], Ended)
@@ -321,29 +331,68 @@ Fixpoint serve_v1alpha (st : state) (closed : bool) (evs : list event)
 Definition obs_error (e : error) : tr :=
   match e with DecodeError => Nd [Nn 0] | MissingName k => Nd [Nn 1; Nn k] end.
 Definition obs_file (f : file) : tr := Nd [oopt Bs (f_name f); Nn (f_rest f)].
-Definition obs_answer (a : response + N) : tr :=
+(* an i32 as its two's-complement u32 *)
+Definition obs_i32 (z : Z) : tr := Nn (Z.to_N (z mod 4294967296)%Z).
+Definition obs_request (q : request) : tr :=
+  match q with
+  | NoMessageRequest => Nd [Nn 0]
+  | FileByFilename s => Nd [Nn 1; Bs s]
+  | FileContainingSymbol s => Nd [Nn 2; Bs s]
+  | FileContainingExtension t n => Nd [Nn 3; Bs t; obs_i32 n]
+  | AllExtensionNumbersOfType t => Nd [Nn 4; Bs t]
+  | ListServices c => Nd [Nn 5; Bs c]
+  end.
+Definition obs_response (m : response) : tr :=
+  match m with
+  | FileDescriptorResponse f => Nd [Nn 1; obs_file f]
+  | AllExtensionNumbersResponse => Nd [Nn 2; Bs []; Nd []]   (* base_type_name "", no numbers *)
+  | ListServicesResponse l => Nd [Nn 3; olist Bs l]
+  end.
+(* The envelope of a response message (valid_host, original_request) is compared as a 64-bit
+   FNV-1a digest of an injective byte rendering (strings are UTF-8, so 255 separates them): the
+   harness digests what came back in the same way.  [obs_request] is the readable rendering. *)
+Definition fnv_step (h b : N) : N :=
+  N.land (N.lxor h b * 1099511628211) 18446744073709551615.
+Definition fnv (bs : list N) : N := fold_left fnv_step bs 14695981039346656037.
+Definition u32_bytes (z : Z) : list N :=
+  let n := Z.to_N (z mod 4294967296)%Z in
+  [n mod 256; (n / 256) mod 256; (n / 65536) mod 256; n / 16777216].
+Definition request_bytes (q : request) : list N :=
+  match q with
+  | NoMessageRequest => [0]
+  | FileByFilename s => 1 :: s
+  | FileContainingSymbol s => 2 :: s
+  | FileContainingExtension t n => 3 :: t ++ 255 :: u32_bytes n
+  | AllExtensionNumbersOfType t => 4 :: t
+  | ListServices c => 5 :: c
+  end.
+Definition envelope_bytes (r : reply) : list N :=
+  valid_host r ++ 255 ::
+  match original_request r with
+  | None => [0]
+  | Some hq => 1 :: fst hq ++ 255 :: request_bytes (snd hq)
+  end.
+Definition obs_answer (a : reply + N) : tr :=
   match a with
   | inr code => Nd [Nn 0; Nn code]
-  | inl (FileDescriptorResponse f) => Nd [Nn 1; obs_file f]
-  | inl AllExtensionNumbersResponse => Nd [Nn 2; Bs []; Nd []]   (* base_type_name "", no numbers *)
-  | inl (ListServicesResponse l) => Nd [Nn 3; olist Bs l]
+  | inl r => Nd [obs_response (message_response r); Nn (fnv (envelope_bytes r))]
   end.
 Definition obs_ending (e : ending) : tr := Nn (match e with Ended => 0 | Panic => 1 end).
-Definition obs_stream (r : list (response + N) * ending) : tr :=
+Definition obs_stream (r : list (reply + N) * ending) : tr :=
   Nd [olist obs_answer (fst r); obs_ending (snd r)].
 
 (* one service version: build, then every query on a stream of its own, then one scripted stream *)
-Definition obs_version (serve : state -> bool -> list event -> list (response + N) * ending)
-  (own : fds) (b : builder) (queries : list request) (script : list event) : tr :=
+Definition obs_version (serve : state -> bool -> list event -> list (reply + N) * ending)
+  (own : fds) (b : builder) (queries : list (name * request)) (script : list event) : tr :=
   match build own b with
   | Err e => Nd [Nn 0; obs_error e]
   | Ok st =>
       Nd [Nn 1;
-          olist (fun q => obs_stream (serve st false [Req q])) queries;
+          olist (fun hq => obs_stream (serve st false [Req (fst hq) (snd hq)])) queries;
           obs_stream (serve st false script)]
   end.
 
-Definition obs_case (own_v1 own_v1alpha : fds) (ops : list bop) (queries : list request)
+Definition obs_case (own_v1 own_v1alpha : fds) (ops : list bop) (queries : list (name * request))
   (script : list event) : tr :=
   let b := run_ops ops in
   Nd [obs_version serve_v1 own_v1 b queries script;
@@ -441,3 +490,41 @@ Definition file_complete (f : file) : bool :=
 (* names chosen with with_service_name, in call order *)
 Definition chosen (ops : list bop) : list name :=
   flat_map (fun o => match o with WithServiceName n => [n] | _ => [] end) ops.
+
+(* the same set as [declares], as a list: every fully-qualified name a file declares (a missing
+   name declares nothing, and neither does anything below it) *)
+Definition onames (scope : name) (l : list (option name)) : list name :=
+  flat_map (fun o => match o with Some v => [qual scope v] | None => [] end) l.
+Definition enum_names (scope : name) (e : enum) : list name :=
+  match e with
+  | Enum (Some n) vs => qual scope n :: onames (qual scope n) vs
+  | Enum None _ => []
+  end.
+Fixpoint msg_names (scope : name) (m : msg) {struct m} : list name :=
+  match m with
+  | Msg (Some n) ns es fs os =>
+      qual scope n ::
+        flat_map (msg_names (qual scope n)) ns ++ flat_map (enum_names (qual scope n)) es ++
+        onames (qual scope n) fs ++ onames (qual scope n) os
+  | Msg None _ _ _ _ => []
+  end.
+Definition service_sym_names (scope : name) (s : service) : list name :=
+  match s with
+  | Service (Some n) ms => qual scope n :: onames (qual scope n) ms
+  | Service None _ => []
+  end.
+Definition declared_names (f : file) : list name :=
+  flat_map (msg_names (pkg f)) (f_msgs f) ++ flat_map (enum_names (pkg f)) (f_enums f) ++
+  flat_map (service_sym_names (pkg f)) (f_services f).
+Definition declares_b (f : file) (s : name) : bool :=
+  existsb (fun k => bytes_eqb k s) (declared_names f).
+
+(* tie of the harness oracle's own reading of "what a file declares" to [declares]: both
+   inclusions and the number of declarations (with repetitions) *)
+Definition incl_b (a b : list name) : bool :=
+  forallb (fun x => existsb (fun k => bytes_eqb k x) b) a.
+Definition obs_declared (f : file) (oracle_names : list name) : tr :=
+  Nd [obool (incl_b (declared_names f) oracle_names);
+      obool (incl_b oracle_names (declared_names f));
+      Nn (N.of_nat (List.length (declared_names f)))].
+
